@@ -36,6 +36,8 @@ type findServer struct {
 	served  int
 	lastErr error
 	wrap    int // how the handler hands errors to EncodeError: 0 as is, 1 wrapped with %w, 2 wrapped twice, 3 joined
+	// offTypes: resource types switched off by an empty path-type option
+	offTypes map[string]bool
 }
 
 // wrapped adds the context a handler typically adds before reporting an error.
@@ -127,9 +129,22 @@ func runC19(r *simkit.Run, c Cfg) {
 	mhType, cidType := "multihash", "cid"
 	fs := &findServer{r: r, index: map[string][]model.ProviderResult{}, wrap: tp.Choose(4, "errwrap")}
 	fs.opts = append(fs.opts, rwriter.WithPreferJson(preferJSON))
-	if tp.Chance(1, 4, "customPaths") {
+	fs.offTypes = map[string]bool{}
+	switch tp.Choose(8, "paths") {
+	case 0, 1:
 		mhType, cidType = "mh", "c"
 		fs.opts = append(fs.opts, rwriter.WithMultihashPathType(mhType), rwriter.WithCidPathType(cidType))
+	case 2:
+		// an empty path type switches the resource type off: /cid/<key> is
+		// an unsupported resource type then
+		fs.opts = append(fs.opts, rwriter.WithCidPathType(""))
+		fs.offTypes["cid"] = true
+	case 3:
+		// multihash keys off, CIDs under a custom name (the real client,
+		// which asks for /multihash/<key>, is not used in such runs)
+		cidType = "content"
+		fs.opts = append(fs.opts, rwriter.WithMultihashPathType(""), rwriter.WithCidPathType(cidType))
+		fs.offTypes[mhType] = true
 	}
 	tlsOn := tp.Chance(1, 3, "tls")
 	addr := "find.example.org:80"
@@ -151,6 +166,10 @@ func runC19(r *simkit.Run, c Cfg) {
 		nres := tp.Choose(9, "nres")
 		if tp.Chance(1, 5, "empty") {
 			nres = 0
+		} else if tp.Chance(1, 6, "many") {
+			// long lists: bodies beyond the 2 KiB and 4 KiB buffers of HTTP
+			// servers and clients
+			nres = []int{12, 13, 25, 40, 64, 120}[tp.Choose(6, "manyN")]
 		}
 		var rs []model.ProviderResult
 		for j := 0; j < nres; j++ {
@@ -169,7 +188,11 @@ func runC19(r *simkit.Run, c Cfg) {
 			case 1:
 				pr.Metadata = []byte{}
 			default:
-				pr.Metadata = tp.Bytes(1+tp.Choose(40, "mdlen"), "mdbytes")
+				if tp.Chance(1, 10, "mdbig") {
+					pr.Metadata = tp.Bytes(1024, "mdbytes")
+				} else {
+					pr.Metadata = tp.Bytes(1+tp.Choose(40, "mdlen"), "mdbytes")
+				}
 			}
 			ai := &peer.AddrInfo{ID: provs[tp.Choose(len(provs), "prov")].ID}
 			na := tp.Choose(4, "naddr")
@@ -224,7 +247,7 @@ func runC19(r *simkit.Run, c Cfg) {
 			opCancelled = false
 			req0 := len(net.Requests())
 			kind := tp.Choose(5, "opkind")
-			if mhType != "multihash" {
+			if mhType != "multihash" || fs.offTypes[mhType] {
 				kind = 4 // the stock client addresses /multihash/ only
 			}
 			switch kind {
@@ -389,6 +412,9 @@ func c19Raw(r *simkit.Run, t *simkit.Task, net *simkit.Net, fs *findServer, ctx 
 		pathType = cidType
 		key = "bafynotacid"
 		validKey = false
+	}
+	if fs.offTypes[pathType] {
+		validType = false
 	}
 	acc := c19Accepts[tp.Choose(len(c19Accepts), "accept")]
 	u := base + "/" + pathType + "/" + key
